@@ -50,6 +50,17 @@ THEMES = {
         "`parse_element()`; tuple `items` vs single `items`; `AnyOf` vs `OneOf` vs `AllOf`; the JSON serialiser vs "
         "the Python serialiser), an early return or short-circuit that skips work for one shape of input only, "
         "or a helper shared by two features that is changed for the benefit of one of them."),
+    9: ("Make it look like a change a maintainer would plausibly merge. All inputs must be LEGAL (schemas valid under "
+        "JSON Schema Draft 6, DSL calls with documented arguments and sensible usage). This time aim at an "
+        "EQUIVALENCE that users take for granted and single-input tests never compare: two inputs that mean the "
+        "same must be treated the same. Examples: the same schema with its keywords or its properties written in "
+        "another order; a sub-schema written inline vs reached through `$ref` / `definitions`; the same sub-schema "
+        "dict object shared by two places vs two equal copies; a keyword given with its default value vs left out; "
+        "`{\"type\": [\"string\"]}` vs `{\"type\": \"string\"}`; a one-member `allOf`/`anyOf` vs its member; the same "
+        "data with object members in another order, or with 1 vs 1.0 where the schema allows both; a model built "
+        "with the DSL vs parsed from its own serialize_json output vs re-imported from its own serialize_python "
+        "output; validating A then B vs B then A. Break the property for ONE side of such a pair only. Your change "
+        "must also sit in a function that none of the earlier changes touched (their locations are listed below)."),
 }
 
 
